@@ -67,27 +67,33 @@ CHECKS = {
             "Machine-checked: columns and [min_rows,max_rows] are truthful for every well-formed tree over truthful "
             "leaves (all operations incl. join/chain), hence join-identity/trivial flags and the short-cuts keyed on "
             "them. " + CORR, "", "DESIGN.md 5/C06"),
-    "C07": (PR, "Lean 4 theorems over the monadic model of Processor._process_recursive: multi_engine_process_then_execute_yields_direct_rows (trees over several iteration engines: transfers, chains, unary operations, materializations), idempotence on processed trees, trivial transfers + correspondence + oracle on every generated multi-engine program",
+    "C07": (PR, "Lean 4 theorems over the monadic model of Processor._process_recursive: multi_engine_process_then_execute_yields_direct_rows (operations in iteration engines, fed by transfers between iteration engines AND by transfers out of a SQL engine whose hook conforms, compiles and runs the source; chains, materializations), idempotence on processed trees + correspondence + oracle on every generated multi-engine program",
             "Machine-checked (Props/C07.lean; the model of Processor.process with the two hooks instantiated the way the "
-            "harness's real Processor instantiates them): for every tree of leaves, unary operations, chains, transfers "
-            "BETWEEN iteration engines and materializations of single-engine subtrees (statically trivial transfers and materializations included), nested to any depth, whenever "
-            "process succeeds the returned tree has the engine and columns of the input and executing it in its final engine "
-            "yields exactly the rows - values, multiplicity, order - of the direct evaluation of the input "
+            "harness's real Processor instantiates them): for every tree of leaves, unary operations, chains, "
+            "materializations of single-engine subtrees, transfers BETWEEN iteration engines and transfers OUT OF A SQL "
+            "ENGINE whose source is a raw SQL tree over tables (unary operations, joins, chains), statically trivial "
+            "transfers and materializations included, nested to any depth: whenever process succeeds the returned tree has "
+            "the engine and columns of the input and executing it in its final engine yields exactly the rows - values, "
+            "multiplicity, order - of the direct evaluation of the input "
             "(multi_engine_process_then_execute_yields_direct_rows); behind it an induction through the monadic model "
-            "(multi_engine_processing_invariant): hooks run on sources their own engine executes (exec_correct, C01) and "
-            "return the direct rows of that source, payloads go to NEW Transfer nodes with fresh allocation ids or to "
-            "Materializations of the input and hold the rows registered for the marker, re-applied operations preserve rows "
-            "(C05), a statically empty chain operand is dropped only when it really is empty (C06). For a tree inside ONE "
-            "iteration engine process returns the tree itself and creates no node (single_engine_tree_is_only_annotated, "
-            "process_then_execute_yields_direct_rows - total: processing cannot fail). A relation that holds a payload, and "
-            "a tree all of whose leaves and markers hold payloads, is returned as the SAME object with no hook call and no "
-            "state change (processed_relation_is_left_alone, reprocessing_calls_no_hook, "
-            "fully_processed_tree_is_returned_unchanged); a statically trivial Transfer gets the engine's trivial payload on "
-            "a new node, the hook log unchanged (trivial_transfer_calls_no_hook). Proof (partial): trees that involve a SQL "
-            "engine (hooks that compile and run SQL, Select markers, joins) and "
-            "transfers below materializations are validated by the correspondence and the oracle on every generated "
-            "program, not proved; the multi-engine theorem is a partial-correctness statement (it assumes process "
-            "returned). " + CORR, "", "DESIGN.md 5/C07"),
+            "(multi_engine_processing_invariant) that composes the other properties' theorems: a hook on an iteration-engine "
+            "source returns the direct rows because execute is correct (C01, generalised to trees containing processed "
+            "Transfers: exec_correctM), a hook on a SQL source returns them because conform preserves rows (C17) and the "
+            "emitted SELECT evaluates to the reference rows (C02, compile_sound), re-applied operations preserve rows (C05), a "
+            "statically empty chain operand is dropped only when it really is empty (C06); payloads go to NEW Transfer nodes "
+            "with fresh allocation ids or to Materializations of the input and hold the rows registered for the marker, no "
+            "payload is ever lost. For a tree inside ONE iteration engine process returns the tree itself and creates no "
+            "node (single_engine_tree_is_only_annotated, process_then_execute_yields_direct_rows - total: processing cannot "
+            "fail). A relation that holds a payload, and a tree all of whose leaves and markers hold payloads, is returned "
+            "as the SAME object with no hook call and no state change (processed_relation_is_left_alone, "
+            "reprocessing_calls_no_hook, fully_processed_tree_is_returned_unchanged); a statically trivial Transfer gets the "
+            "engine's trivial payload on a new node, the hook log unchanged (trivial_transfer_calls_no_hook). Proof "
+            "(partial): operations or materializations INSIDE a SQL engine downstream of a transfer (transfers INTO a SQL "
+            "engine), joins across engines, Select markers in the input and transfers below materializations are validated "
+            "by the correspondence and the oracle on every generated program, not proved; for SQL sources the theorem "
+            "assumes faithful table payloads and the decidable check Rel.structReady on the conformed source (as C02); the "
+            "multi-engine theorem is a partial-correctness statement (it assumes process returned). " + CORR, "",
+            "DESIGN.md 5/C07"),
     "C08": (PR, "Lean 4 theorems: every accepted iteration-engine history executes; compile_total (the SQL engine's _select_to_executable / to_payload never fail on the trees the engine builds - mutual induction, composed with the tree-building induction of C17 whose invariant carries the compilable shape) + correspondence incl. execution of every generated query on SQLite",
             "Machine-checked (Props/C08.lean): every accepted iteration-engine history executes and iterates without any "
             "error; _finish_apply raises nothing but the documented EngineError; in the SQL engine, for every tree satisfying "
